@@ -753,13 +753,32 @@ func genLoop(o *out) {
 		qc = append(qc, [2]string{coqStr(m), "[" + strings.Join(calls, "; ") + "]"})
 		found, guarded := lpResetGuarded(fd)
 		if found {
+			// the wake-up must follow the last queue call (the change is published before the loop is told)
+			var lastQ, reset token.Pos
+			ast.Inspect(fd.Body, func(n ast.Node) bool {
+				if c, ok := n.(*ast.CallExpr); ok {
+					nm := callName(c.Fun)
+					if strings.HasPrefix(nm, "sched.queue.") && c.Pos() > lastQ {
+						lastQ = c.Pos()
+					}
+					if nm == "sched.Reset" && (reset == 0 || c.Pos() < reset) {
+						reset = c.Pos()
+					}
+				}
+				return true
+			})
+			if reset < lastQ {
+				guarded = false
+			}
+		}
+		if found {
 			rg = append(rg, [2]string{coqStr(m), coqBool(guarded)})
 		} else if m != "GetJobKeys" && m != "GetScheduledJob" {
 			rg = append(rg, [2]string{coqStr(m), "false"}) // a mutating method that never calls Reset()
 		}
 		pe = append(pe, [2]string{coqStr(m), coqBool(lpPropagates(fd))})
 	}
-	o.line("(* API methods: queue calls in order; Reset() only after success and only if IsStarted() *)")
+	o.line("(* API methods: queue calls in order; Reset() only after success, after the last queue call and only if IsStarted() *)")
 	o.line("Definition api_queue_calls : list (string * list string) := %s.", coqPairList(qc))
 	o.line("Definition api_reset_guarded : list (string * bool) := %s.", coqPairList(rg))
 	o.line("Definition api_returns_queue_error : list (string * bool) := %s.", coqPairList(pe))
